@@ -104,9 +104,7 @@ func (sr *SR) parseWKTDatum(secName []string, secData string) error {
 }
 
 func (sr *SR) datumRename() {
-	if sr.DatumCode[0:2] == "d_" {
-		sr.DatumCode = sr.DatumCode[2:len(sr.DatumCode)]
-	}
+	sr.DatumCode = strings.TrimPrefix(sr.DatumCode, "d_")
 	if sr.DatumCode == "new_zealand_geodetic_datum_1949" ||
 		sr.DatumCode == "new_zealand_1949" {
 		sr.DatumCode = "nzgd49"
